@@ -126,6 +126,40 @@ def _run_cc(cmd):
         raise BuildError("build failed: %s\n%s" % (" ".join(cmd), r.stdout[-4000:]))
 
 
+HELPERS = ["N_I64", "N_D8", "N_DBL", "N_GCD", "S_IDENT", "B_BUILDER"]
+
+
+def helper_flags(cfg):
+    """-DHAVE_<X> for every static helper of the library that still exists with the signature the harness calls
+    (probed by compiling harness/probe.c with -fsyntax-only; cached per source hash and configuration)."""
+    bd = build_dir()
+    cache = os.path.join(bd, "helpers-%s.json" % cfg)
+    if os.path.exists(cache):
+        have = json.load(open(cache))
+    else:
+        with Lock("probe-%s" % cfg):
+            if os.path.exists(cache):
+                have = json.load(open(cache))
+            else:
+                inc = ["-I" + os.path.join(REPO, "src"), "-I" + os.path.join(REPO, "include")]
+                have = {}
+                for h in HELPERS:
+                    if h == "N_GCD" and cfg not in ("clj", "both"):
+                        have[h] = False
+                        continue
+                    r = subprocess.run(["gcc", "-std=c11", "-msse4.2", "-fsyntax-only", "-Werror=implicit-function-declaration", "-DPROBE_" + h] + CFGS[cfg] + inc +
+                                       [os.path.join(VERIF, "harness", "probe.c")], stdout=subprocess.PIPE, stderr=subprocess.STDOUT, text=True)
+                    have[h] = r.returncode == 0
+                with open(cache + ".tmp", "w") as fh:
+                    json.dump(have, fh)
+                os.rename(cache + ".tmp", cache)
+    return ["-DHAVE_" + h for h in HELPERS if have.get(h)], [h for h in HELPERS if not have.get(h) and not (h == "N_GCD" and cfg not in ("clj", "both"))]
+
+
+def missing_helpers(cfg="core"):
+    return helper_flags(cfg)[1]
+
+
 def harness(style, cfg, mode):
     """Build (or reuse) a harness binary.  style: 'unity' or 'wrap'."""
     bd = build_dir()
@@ -140,7 +174,7 @@ def harness(style, cfg, mode):
         hsrc = os.path.join(VERIF, "harness", "edn_harness.c")
         tmp = out + ".tmp%d" % os.getpid()
         if style == "unity":
-            _run_cc([cc] + flags + CFGS[cfg] + ["-DVERIF_UNITY", "-w"] + inc + [hsrc, "-o", tmp, "-lm", "-lpthread"])
+            _run_cc([cc] + flags + CFGS[cfg] + helper_flags(cfg)[0] + ["-DVERIF_UNITY", "-w"] + inc + [hsrc, "-o", tmp, "-lm", "-lpthread"])
         else:
             objdir = out + ".objs"
             os.makedirs(objdir, exist_ok=True)
@@ -166,7 +200,7 @@ def extractor_output(cfg):
             return open(out).read()
         exe = os.path.join(bd, "extract-%s" % cfg)
         inc = ["-I" + os.path.join(REPO, "src"), "-I" + os.path.join(REPO, "include")]
-        _run_cc(["gcc", "-std=c11", "-O1", "-msse4.2", "-w"] + CFGS[cfg] + inc +
+        _run_cc(["gcc", "-std=c11", "-O1", "-msse4.2", "-w"] + CFGS[cfg] + helper_flags(cfg)[0] + inc +
                 [os.path.join(VERIF, "harness", "extract.c"), "-o", exe, "-lm"])
         r = subprocess.run([exe], stdout=subprocess.PIPE, text=True, check=True)
         with open(out + ".tmp", "w") as fh:
